@@ -87,11 +87,11 @@ func (g *verifGov) HasVote(ctx sdk.Context, id uint64, v sdk.AccAddress) (bool, 
 type verifAddrCodec struct{}
 
 func (verifAddrCodec) StringToBytes(s string) ([]byte, error) { return sdk.AccAddressFromBech32(s) }
-func (verifAddrCodec) BytesToString(b []byte) (string, error)  { return sdk.AccAddress(b).String(), nil }
+func (verifAddrCodec) BytesToString(b []byte) (string, error) { return sdk.AccAddress(b).String(), nil }
 
 type verifAccounts struct{ govtypes.AccountKeeper }
 
-func (verifAccounts) AddressCodec() addresscodec.Codec { return verifAddrCodec{} }
+func (verifAccounts) AddressCodec() addresscodec.Codec                              { return verifAddrCodec{} }
 func (verifAccounts) GetAccount(ctx context.Context, a sdk.AccAddress) sdk.AccountI { return nil }
 
 // VerifC14GovParticipation: account migration is refused while the source or the target is
